@@ -309,7 +309,7 @@ def replay_behaviour(ctx, hist, skip=None):
         op = act["op"]
         try:
             ret = None if i == skip else apply(ctx, act)
-        except Exception as ex:  # a public call that raises did not "return": report it, do not judge it
+        except Exception as ex:  # a public call that raises did not "return": reported as DRIFT
             return n, {"step": i, "clauses": ["exception"], "observed": repr(ex)[:300], "expected": h["st"], "asis_num": h.get("asis_num", 0)}
         n += 1
         obs, cur = observe(ctx, None if op == "start_page" else prev, op, ret)
@@ -372,7 +372,8 @@ def render_act(a):
 def judge(o: Outcome, case: dict, clauses, op: str):
     """Turn the failing clauses of one step into VIOLATION / DRIFT."""
     if clauses == ["exception"]:
-        o.violation(case, f"{op} raised {case.get('observed')}", cls="exception")
+        # the statement speaks about calls that return; the model predicts that these calls do
+        o.note_drift({"after": op, "clauses": ["exception"], "raised": case.get("observed"), "case": _brief(case)})
         return
     viol = [c for c in clauses if c in VIOL]
     drift = [c for c in clauses if c not in VIOL]
@@ -455,7 +456,11 @@ def record_session(rng, d: Path, sid: int, ncalls: int):
         started = False
         for _ in range(ncalls):
             act = random_act(rng, started)
-            ret = apply(ctx, act)
+            try:
+                ret = apply(ctx, act)
+            except Exception as ex:  # the session ends here; reported as DRIFT by run_v
+                events.append({**mk_act("reset"), "sid": sid, "obs": events[0]["obs"], "raised": [render_act(act), repr(ex)[:300]]})
+                break
             if act["op"] == "start_page":
                 started = True
             obs, prev = observe(ctx, prev, act["op"], ret)
@@ -499,14 +504,17 @@ def v_chunk(jobs):
         for c in b["clauses"]:
             if (b["sid"], c) in seen:
                 continue
+            if c.startswith("msg_") and "lists_emptied" in b["clauses"]:
+                continue  # stale messages that survived start_page: one finding, not four
             seen.add((b["sid"], c))
             i = b["i"] - 1
             start = max(j for j in range(i + 1) if events[j]["op"] == "reset")
             firsts.append({"clause": c, "clauses": b["clauses"], "events": events[start : i + 1], "expected": b["expected"]})
+    raised = [e["raised"] for e in events if "raised" in e]
     shapes = {(e["op"], e["a"], common.json_key(e["nw"])) for e in events if e["op"] in ("expand", "parse")}
     shapes |= {(e["op"], e["a"], e["obs"]["section"], e["obs"]["subsection"]) for e in events if e["op"] == "emit"}
     out.append({"nevents": len(events), "nsessions": len(jobs), "firsts": firsts, "distinct": r.distinct, "generated": r.generated,
-                "wall": r.wall, "depth": r.depth, "shapes": sorted(shapes),
+                "wall": r.wall, "depth": r.depth, "shapes": sorted(shapes), "raised": raised,
                 "nested": sum(1 for e in events for k in KINDS for m in e["obs"]["new"][k] if len(m["path"]) > 2 and e["op"] != "reset" and e["op"] != "start_page"),
                 "sample": [{k: e[k] for k in ("op", "a", "b", "nw")} for e in events[1:7]]})
     return out
@@ -535,6 +543,8 @@ def run_v(o: Outcome, nsessions: int, per_chunk: int, nproc=None):
         o.add_tlc(f"Trace_Session[{k}]", _R(r["distinct"], r["generated"], r["depth"], r["wall"]))
         for s in r["shapes"]:
             o.shape(("V",) + tuple(s))
+        for call, exc in r["raised"]:
+            o.note_drift({"after": call, "clauses": ["exception"], "raised": exc})
         for b in r["firsts"]:
             ev = b["events"][-1]
             case = {"kind": "V", "calls": [render_act(e) for e in b["events"][1:]][-12:], "clauses": b["clauses"],
@@ -604,6 +614,9 @@ def strip_probe(o: Outcome, r):
                         break
         finally:
             close_ctx(ctx)
+    if explained:
+        print(f"NOTE property={PID} (beyond the statement, verdict unaffected) StripCounterKeyCollision reproduced on {explained} behaviour(s), "
+              f"e.g. {json.dumps(witness)}; proposed_fixes/C16-strip-marker-cache-keys.diff")
     o.extra["session_beyond_statement"] = {"StripCounterKeyCollision": {
         "what": "create_strip_marker keeps its two counters and the contents in one dict: a content equal to 'preprocess' or 'nowiki' gets / changes a counter (same content -> different numbers, different contents -> same number)",
         "behaviours_explained_by_deviation": explained, "agree_with_ideal": agree, "neither": unexplained, "witness": witness}}
@@ -649,10 +662,11 @@ def extend(o: Outcome, tier: str) -> None:
         mcw = 8 if thorough else 4
         f_msgs = ex.submit(tlc, "MC_Session", "MC_Session_msgs_T.cfg" if thorough else "MC_Session_msgs.cfg", workers=mcw, timeout=1500, coverage=True)
         f_tabs = ex.submit(tlc, "MC_Session", "MC_Session_tables_T.cfg" if thorough else "MC_Session_tables.cfg", workers=mcw, timeout=1500, coverage=True)
-        f_demo = {cfg: ex.submit(tlc, "MC_Session", cfg, workers=1, timeout=600, check=False) for cfg, _ in DEMOS}
+        demos = DEMOS if thorough else [x for x in DEMOS if x[0] != "Demo_Session_cookie_dup.cfg"]
+        f_demo = {cfg: ex.submit(tlc, "MC_Session", cfg, workers=1, timeout=600, check=False) for cfg, _ in demos}
         f_gen = ex.submit(tlc, "Gen_Session", "Gen_Session_T.cfg" if thorough else "Gen_Session_Q.cfg", workers=1, timeout=1500)
         f_sim = ex.submit(_sim, 400 if thorough else 40, 14, common.seed() + 16)
-        f_strip = ex.submit(tlc, "Gen_Session", "strip.cfg", workers=1, timeout=600, cfg_text=STRIP_GEN_CFG % (5 if thorough else 4))
+        f_strip = ex.submit(tlc, "Gen_Session", "strip.cfg", workers=1, timeout=600, cfg_text=STRIP_GEN_CFG % (5 if thorough else 3))
         if not thorough:
             run_v(o, 10, 10, nproc=1)
         futures = [f_msgs, f_tabs, f_gen, f_sim, f_strip] + list(f_demo.values())
@@ -694,7 +708,7 @@ def extend(o: Outcome, tier: str) -> None:
     if never:
         raise common.TLCError(f"actions never taken in MC_Session (vacuity): {never}")
     demo = {}
-    for cfg, inv in DEMOS:
+    for cfg, inv in demos:
         r = f_demo[cfg].result()
         demo[cfg] = r.invariant_violated
         if inv not in r.invariant_violated:
